@@ -44,8 +44,13 @@ def nameOf (c : Cmd) : String :=
   | [] => ""
   | n :: _ => String.ofList ((KS.upperBytes n).map fun b => Char.ofNat b)
 
-/-- what `should_queue_command` refuses to queue (all of them are handled before the queue test) -/
-def controlNames : List String := ["MULTI", "EXEC", "DISCARD", "WATCH", "UNWATCH"]
+/-- the transaction-control commands proper: never queued (as in Redis).  `should_queue_command` of
+    the tree as found also lets UNWATCH through — that is a deviation, modelled by `Quirks.immediate` -/
+def controlNames : List String := ["MULTI", "EXEC", "DISCARD", "WATCH"]
+
+/-- commands about the issuing connection itself (`CLIENT ID | SETNAME | GETNAME | …`): handed to
+    the connection table, not to the dataset -/
+def connectionNames : List String := ["CLIENT"]
 
 /-- names `process_frame` hands to another subsystem (monitor feed, pub/sub, authentication,
     replication) BEFORE the queue test; none of them touches the dataset -/
@@ -58,7 +63,7 @@ def preQueueNames : List String :=
    "PSUBSCRIBE", "PUNSUBSCRIBE", "AUTH", "REPLCONF"]
 
 inductive Kind where
-  | multi | exec | discard | watch | unwatch | other
+  | multi | exec | discard | watch | other
   deriving DecidableEq, Repr
 
 def kindOf (name : String) : Kind :=
@@ -66,7 +71,6 @@ def kindOf (name : String) : Kind :=
   else if name = "EXEC" then .exec
   else if name = "DISCARD" then .discard
   else if name = "WATCH" then .watch
-  else if name = "UNWATCH" then .unwatch
   else .other
 
 structure Quirks where
@@ -81,6 +85,13 @@ structure Quirks where
       EXEC's array (which the serializer cannot write: the reply is cut short) and registers
       connection id 0 in the blocking registry.  Prescribed: a null array in the slot, nothing else. -/
   blockingInExecNoResponse : Bool := false
+  /-- MULTI, EXEC, DISCARD and UNWATCH ignore surplus arguments (`EXEC junk` executes, `UNWATCH junk`
+      drops the watches).  Prescribed: an arity error, nothing changes. -/
+  controlArityUnchecked : Bool := false
+  /-- a queued command about the issuing connection (CLIENT …) is run by EXEC under the dummy
+      connection id 0 (`CLIENT ID` answers 0, `CLIENT SETNAME` finds no connection).  Prescribed: under
+      the id of the connection that sent EXEC. -/
+  connCommandsUnderConnZero : Bool := false
   deriving Repr
 
 def Quirks.spec : Quirks := {}
@@ -88,7 +99,8 @@ def Quirks.spec : Quirks := {}
 /-- the tree as found (all three deviations); `Quirks.ofSource` (Proofs/TxSource.lean) is what the
     translator reads off the source on each run — the same until a fix lands -/
 def Quirks.code : Quirks :=
-  { immediate := externalNames, selectInExecIgnored := true, blockingInExecNoResponse := true }
+  { immediate := externalNames ++ ["UNWATCH"], selectInExecIgnored := true, blockingInExecNoResponse := true,
+    controlArityUnchecked := true, connCommandsUnderConnZero := true }
 
 /-- one reply slot -/
 inductive Out where
@@ -164,6 +176,12 @@ def runOne (q : Quirks) (inExec : Bool) (cid : Nat) (st : ExecSt) (now : Nat) (c
   else if name = "BLPOP" then runBlocking q inExec cid st now true cmd
   else if name = "BRPOP" then runBlocking q inExec cid st now false cmd
   else if externalNames.contains name then ({ st with ext := st.ext ++ [(cid, cmd)] }, .external)
+  else if connectionNames.contains name then
+    ({ st with ext := st.ext ++ [(if inExec && q.connCommandsUnderConnZero then 0 else cid, cmd)] }, .external)
+  else if name = "UNWATCH" then
+    -- forgets the WATCH set (C08's; not in this model): no dataset effect.  Run by EXEC it is a no-op
+    -- (the watches were checked and dropped before the loop)
+    if cmd.length = 1 || (!inExec && q.controlArityUnchecked) then (st, .frame KS.ok) else (st, .frame KS.err)
   else
     let r := KS.step q.ks st.store st.db now cmd none
     ({ st with store := r.1 }, .frame r.2)
@@ -217,11 +235,18 @@ def exec (q : Quirks) (s : Server) (cid : Nat) (r : Req) : Server × Reply :=
     let res := execFold q true cid r.now ⟨s.store, c.db, s.ext⟩ c.queue
     (setConn { s with store := res.1.store, ext := res.1.ext } cid { cleared c with db := res.1.db }, .exec res.2)
 
+/-- MULTI, EXEC, DISCARD take no argument: with surplus arguments they are refused and nothing changes
+    (unless the switch is on) -/
+def badArity (q : Quirks) (cmd : Cmd) : Bool :=
+  (kindOf (nameOf cmd) == .multi || kindOf (nameOf cmd) == .exec || kindOf (nameOf cmd) == .discard) &&
+    cmd.length != 1 && !q.controlArityUnchecked
+
 /-- `Server::process_frame` for an authenticated connection -/
 def processFrame (q : Quirks) (s : Server) (cid : Nat) (r : Req) : Server × Reply :=
   let c := s.conns cid
   if r.cmd.isEmpty then (s, .one (.frame KS.err)) else
   let name := nameOf r.cmd
+  if badArity q r.cmd then (s, .one (.frame KS.err)) else
   match kindOf name with
   | .multi =>
     if c.inTx then (s, .one (.frame KS.err))
@@ -234,7 +259,6 @@ def processFrame (q : Quirks) (s : Server) (cid : Nat) (r : Req) : Server × Rep
     if r.cmd.length < 2 then (s, .one (.frame KS.err))
     else if c.inTx then (s, .one (.frame KS.err))
     else (s, .one (.frame KS.ok))
-  | .unwatch => (s, .one (.frame KS.ok))
   | .other =>
     if c.inTx && !q.immediate.contains name then
       (setConn s cid { c with queue := c.queue ++ [r.cmd] }, .one (.frame queuedFrame))
@@ -298,6 +322,7 @@ def dbAfter (q : Quirks) (inExec : Bool) (db : Nat) (c : Cmd) : Nat :=
 
 def connStep (q : Quirks) (c : Conn) (r : Req) : Conn :=
   if r.cmd.isEmpty then c else
+  if badArity q r.cmd then c else
   match kindOf (nameOf r.cmd) with
   | .multi => if c.inTx then c else { c with inTx := true, queue := [], aborted := false }
   | .exec =>
@@ -307,7 +332,6 @@ def connStep (q : Quirks) (c : Conn) (r : Req) : Conn :=
     else { cleared c with db := c.queue.foldl (dbAfter q true) c.db }
   | .discard => if !c.inTx then c else cleared c
   | .watch => c
-  | .unwatch => c
   | .other =>
     if c.inTx && !q.immediate.contains (nameOf r.cmd) then { c with queue := c.queue ++ [r.cmd] }
     else { c with db := dbAfter q false c.db r.cmd }
